@@ -160,7 +160,7 @@ def run_layers(ck, plan, prefixes, conformance=True, seeds=None):
     resA = validate(ck, "GPBFTObs", "GPBFTObs.cfg", traces, "obs")
     judge_obs(ck, resA, prefixes)
     if conformance and not ck.violations:
-        resB = validate(ck, "GPBFTTrace", "GPBFTTrace.cfg", traces, "conf", timeout=240)
+        resB = validate(ck, "GPBFTTrace", "GPBFTTrace.cfg", traces, "conf", timeout=240 if ck.tier == "quick" else 900)
         judge_conf(ck, resB)
     if traces:
         ev = vlib.read_ndjson(traces[0])
